@@ -1,15 +1,83 @@
-import BppModel.Text.Number
+import BppProofs.Lemmas.Number
 /-!
-# C17 — write-then-read round trips and exact grammars
+# C17 — write-then-read round trips and exact grammars: numbers
 
-Property theorems only.
+Property theorems only (helper lemmas: `Lemmas/Number.lean`).  Model: `BppModel/Text/Number.lean`,
+the code of `TextTools::isDecimalNumber / isDecimalInteger / toDouble / toInt` after the repair
+"fix: isDecimalNumber/isDecimalInteger require at least one mantissa digit"; `…Old` is the code as found.
+
+`Decimal dec sci s` is the strict grammar  `-`? digits* (`dec` digits*)? (`sci` [+-]? digits+)?  with
+at least one mantissa digit, given declaratively as `∃ p : DecParts, p.WF ∧ s = p.render dec sci`;
+`p.value : Rat` is the value it assigns.  The final decimal→binary rounding (strtod) is not modelled.
 -/
 namespace Bpp.C17
 open Bpp.Text Bpp.Text.Number
 
-/-- the code as found accepted a lone sign (and `toDouble "-"` returned 0) -/
+/-! ## defects of the code as found (negations on concrete witnesses) -/
+
+/-- the code as found accepted a lone sign, a lone separator and a lone exponent, none of which
+is in the grammar (`accepts_iff_grammar` fails for the old code) -/
 theorem old_accepts_lone_sign :
-    isDecimalNumberOld '.' 'e' ['-'] = true ∧ toDoubleOld '.' 'e' ['-'] = some 0 := by
-  simp [toDoubleOld, isDecimalNumberOld, decLoopOld, isEmptyStr, isSpace, streamDouble]
+    isDecimalNumberOld '.' 'e' ['-'] = true ∧ isDecimalNumberOld '.' 'e' ['.'] = true
+    ∧ isDecimalNumberOld '.' 'e' ['e', '5'] = true ∧ toDoubleOld '.' 'e' ['-'] = some 0 := by
+  simp [toDoubleOld, isDecimalNumberOld, decLoopOld, isEmptyStr, isSpace, streamDouble, streamUnsigned,
+    streamTail, isDigit]
+
+theorem old_witnesses_not_decimal :
+    ¬ Decimal '.' 'e' ['-'] ∧ ¬ Decimal '.' 'e' ['.'] ∧ ¬ Decimal '.' 'e' ['e', '5'] := by
+  have hs : SaneChars '.' 'e' := by unfold SaneChars; decide
+  refine ⟨?_, ?_, ?_⟩ <;>
+  · rintro ⟨p, hwf, hr⟩
+    have := parseDecimal_complete hs p hwf
+    rw [← hr] at this
+    simp [parseDecimal, parseUnsigned, parseTail, isDigit, List.takeWhile, List.dropWhile] at this
+
+/-! ## the repaired code -/
+
+/-- `isDecimalNumber` accepts exactly the strings of the strict decimal grammar -/
+theorem accepts_iff_grammar {dec sci : Char} (hs : SaneChars dec sci) (s : Str) :
+    isDecimalNumber dec sci s = true ↔ Decimal dec sci s := by
+  rw [isDecimalNumber_eq_parse hs]
+  constructor
+  · intro h
+    cases hp : parseDecimal dec sci s with
+    | none => rw [hp] at h; cases h
+    | some p => exact ⟨p, parseDecimal_sound hs hp⟩
+  · rintro ⟨p, hwf, rfl⟩
+    rw [parseDecimal_complete hs p hwf]; rfl
+
+/-- the default characters are usable -/
+theorem sane_default : SaneChars '.' 'e' ∧ SaneChars '.' 'E' := by unfold SaneChars; decide
+
+/-- the grammar is unambiguous: the parts of a numeral are determined by its text -/
+theorem grammar_unambiguous {dec sci : Char} (hs : SaneChars dec sci) (p q : DecParts)
+    (hp : p.WF) (hq : q.WF) (h : p.render dec sci = q.render dec sci) : p = q := by
+  have h1 := parseDecimal_complete hs p hp
+  have h2 := parseDecimal_complete hs q hq
+  rw [h] at h1; rw [h1] at h2; exact Option.some.inj h2
+
+/-- `toDouble` returns the value the grammar assigns (as a rational, before strtod's rounding) -/
+theorem toDouble_value {sci : Char} (hsci : sci = 'e' ∨ sci = 'E') (p : DecParts) (hwf : p.WF) :
+    toDouble '.' sci (p.render '.' sci) = some p.value := by
+  have hs : SaneChars '.' sci := by rcases hsci with rfl | rfl <;> (unfold SaneChars; decide)
+  have hp := parseDecimal_complete hs p hwf
+  have hacc : isDecimalNumber '.' sci (p.render '.' sci) = true := by
+    rw [isDecimalNumber_eq_parse hs, hp]; rfl
+  simp [toDouble, hacc, streamDouble_of_parse hsci hp]
+
+/-- … and raises for everything else -/
+theorem toDouble_raises {dec sci : Char} (hs : SaneChars dec sci) (s : Str) (h : ¬ Decimal dec sci s) :
+    toDouble dec sci s = none := by
+  have : isDecimalNumber dec sci s = false := by
+    cases hh : isDecimalNumber dec sci s
+    · rfl
+    · exact absurd ((accepts_iff_grammar hs s).mp hh) h
+  simp [toDouble, this]
+
+/-- non-vacuity: "-12.50e-3" is in the grammar, with value -0.0125 -/
+example : (⟨true, ['1', '2'], true, ['5', '0'], some (some '-', ['3'])⟩ : DecParts).WF
+    ∧ (⟨true, ['1', '2'], true, ['5', '0'], some (some '-', ['3'])⟩ : DecParts).render '.' 'e'
+        = ['-', '1', '2', '.', '5', '0', 'e', '-', '3'] := by
+  refine ⟨⟨?_, ?_, ?_, ?_, ?_⟩, rfl⟩ <;> simp [AllDigits, isDigit]
 
 end Bpp.C17
